@@ -29,6 +29,10 @@ LEVEL_TEXT = ("screen_refines is proved for EVERY history of create/write/overwr
               "sections and every width >= 1: interpreting the emitted commands leaves exactly the stacked contents "
               "below the anchor, cursor after the last row, and every section's row counter exact; lex_emit makes the "
               "byte stream and the command list interchangeable; plain_degrades covers outputs without ANSI support. "
+              "The hypotheses of these theorems about the real run (width >= 1 as Terminal().width reports it, written "
+              "lines free of newline and ESC, cursor starting on the row below the rows shown) are decided by the model on "
+              "every generated case (wf_decides; entry c15.run answers wf/anchored, compared with true) and "
+              "stream_refines_dec / plain_no_esc_dec take the decider instead of the hypotheses. "
               "That the model IS the code is established by comparing bytes, content and lines after every operation "
               "(exhaustive small scope + random), that the line-level terminal is a terminal by comparison with a "
               "character-level emulator with deferred wrap.")
@@ -42,7 +46,9 @@ REQUIRED_THEOREMS = ["Clikit.Props.C15.screen_refines", "Clikit.Props.C15.screen
                      "Clikit.Props.C15.clearN_beyond", "Clikit.Props.C15.rows_of_line",
                      "Clikit.Props.C15.plain_degrades", "Clikit.Props.C15.lex_emit",
                      "Clikit.Props.C15.lex_emit_run", "Clikit.Props.C15.stream_refines",
-                     "Clikit.Props.C15.codes_match_source"]
+                     "Clikit.Props.C15.codes_match_source", "Clikit.Props.C15.wf_decides",
+                     "Clikit.Props.C15.stream_refines_dec", "Clikit.Props.C15.plain_no_esc_dec",
+                     "Clikit.Props.C15.clearN_beyond_reachable"]
 RULE = ("sec cases: (a) EVERY operation sequence of exactly depth 4 (quick) / 6 (thorough; every shorter sequence is "
         "a prefix and is checked too, because all checks run after every operation) over up to 3 sections with "
         "create, write_line (1-2 lines), overwrite, clear(), clear(n) and line lengths 0 / below / at / above / twice the "
@@ -62,10 +68,13 @@ TRUSTED_BASE = [
     "math.ceil(len/width) in floating point equals the integer ceiling for the sizes that occur",
 ]
 ASSUMPTIONS = [
-    "content is tab-free, free of style tags, of ESC and of newlines inside a line; indentation 0",
+    "content is tab-free and free of style tags; indentation 0 (scope of the model types, not a theorem hypothesis; a "
+    "generated line outside it would show as a byte disagreement). Free of ESC and of newlines inside a line: no longer "
+    "assumed - decided by the model on every case (wfB, compared with true)",
     "the rows of all sections fit on the visible screen (cursor-up is clamped at the top row of a real terminal)",
     "nothing else writes to the stream between section operations; the terminal has auto-wrap with deferred wrap",
-    "width >= 1 (COLUMNS=0 raises ZeroDivisionError in _count_rows)",
+    "width >= 1 (COLUMNS=0 raises ZeroDivisionError in _count_rows): decided on every case (wfB) for the width "
+    "Terminal().width reports (width_seen is compared with the width given to the model)",
     "sections neither quiet nor verbosity-gated (C10's subject)",
 ]
 BUDGET_S = {"quick": 70, "thorough": 760}
@@ -409,14 +418,17 @@ def model_obs(case, answers):
               "secs": [["".join(l + "\n" for l in x["content"]), x["rows"]] for x in s["secs"]]}
              for s in a["steps"]]
     return {"steps": steps, "screen": _norm_screen(a["screen"]["rows"], a["screen"]["cur"]),
-            "lex": a["lex"], "run_agrees": a["run_agrees"], "width_seen": case["width"]}
+            "lex": a["lex"], "run_agrees": a["run_agrees"], "width_seen": case["width"],
+            "wf": {"wf": a["wf"], "anchored": a["anchored"]}}
 
 
 def impl_view(case, obs):
     if case["kind"] == "term":
         return {"bytes": obs["bytes"], "screen": obs["screen"]}
+    # "wf": the hypotheses of the theorems (width >= 1, written lines are text, cursor starts below the rows shown),
+    # decided by the model on this very case (Props.C15.wf_decides), must hold on every generated case
     return {"steps": obs["steps"], "screen": obs["screen"], "lex": True, "run_agrees": True,
-            "width_seen": obs["width_seen"]}
+            "width_seen": obs["width_seen"], "wf": {"wf": True, "anchored": True}}
 
 
 # ------------------------------------------------------------------ oracle
